@@ -11,8 +11,11 @@ import importlib
 import sys
 sys.path.insert(0, os.path.join(ROOT, "lib"))
 
+# checks reviewed and accepted by the maintainer of /verif (others are still under construction)
+APPROVED = ["C04", "C05", "C13", "C15"]
+
 CHECKS = {}
-for _pid in ALL:
+for _pid in APPROVED:
     if os.path.exists(os.path.join(ROOT, "lib", _pid.lower() + ".py")):
         try:
             _m = importlib.import_module(_pid.lower())
